@@ -9,6 +9,7 @@
 //
 //   ledger <seed> <nprograms> <mode> <prog-out> <answers-out> [--replay <program-file>]
 //   modes: hist    no faults, all element/allocator configurations                       (C08)
+//          semitriv  element types with logged construction but trivial / skipped destruction (C08)
 //          faults  every history is re-run once per injection point k (forked children)  (C09)
 //          alloc   no faults, unequal stateful allocators / pmr resources emphasised      (C10)
 //
@@ -17,7 +18,7 @@
 //
 // Line protocol (program side):
 //   prog <k> <seed>
-//   cfg <E|I> <D> <pocca> <pocma> <pocs> <iae> <socc: 0 identity | 1 even | 2 default> <pmr: 0|1> <fixes>
+//   cfg <E|I|S|F> <D> <pocca> <pocma> <pocs> <iae> <socc: 0 identity | 1 even | 2 default> <pmr: 0|1> <fixes>
 //   fault <k>|none                 the k-th (0-based) fallible step of the whole program throws
 //   x <op> <args...>               one operation (see exec_op)
 //   end
@@ -78,6 +79,7 @@ static int g_socc = 0;                  // select_on_container_copy_construction
 static std::string g_tag = "?";         // tag of the running operation (for terminate / sanitizer death)
 static int g_out_fd = -1;               // answers of the child
 static bool g_observe = true;           // element events observable (instrumented element type)
+static bool g_trivdtor = false;         // the element type's destruction is trivial (or declared trivial): in-block objects end with their storage
 
 inline bool eqv(int a, int b) { return g_iae || a == b; }
 
@@ -119,7 +121,8 @@ inline void deallocate(int alloc, void* p, long n) {
 	Blk& b = g_blocks[static_cast<std::size_t>(id)];
 	if(b.freed) { violation("dealloc-freed"); return; }
 	if(b.n != n) { violation("dealloc-size"); return; }
-	if(g_observe) for(long k = 0; k < b.n; ++k) if(g_live.count(b.p + k * g_elem_size)) { violation("dealloc-live"); return; }
+	if(g_observe && !g_trivdtor) for(long k = 0; k < b.n; ++k) if(g_live.count(b.p + k * g_elem_size)) { violation("dealloc-live"); return; }
+	if(g_observe && g_trivdtor) for(long k = 0; k < b.n; ++k) g_live.erase(b.p + k * g_elem_size);  // no destructor call is due: the objects end with the storage
 	b.freed = true; b.freed_by = alloc;
 	if(!eqv(alloc, b.alloc)) g_wrong_dealloc = true;
 	g_ev.push_back(Ev{'f', id, n, alloc});
@@ -142,12 +145,13 @@ inline bool on_ctor(void const* p) {
 		g_ev.push_back(Ev{'c', id, (static_cast<char const*>(p) - b.p) / g_elem_size, 0});
 		return true;
 	}
+	if(g_trivdtor) return true;  // objects outside the blocks (fill values, temporaries) of a type without destructor hook are not tracked
 	if(g_live.count(p)) { violation("ctor-live"); return false; }
 	g_live.insert(p);
 	return true;
 }
 inline bool on_read(void const* p) {
-	if(!g_live.count(p)) { violation("read-dead"); return false; }
+	if(!g_live.count(p)) { if(g_trivdtor && find_block(p) < 0) return true; violation("read-dead"); return false; }
 	return true;
 }
 inline bool on_assign(void const* p) {
@@ -160,12 +164,12 @@ inline bool on_assign(void const* p) {
 		g_ev.push_back(Ev{'s', id, (static_cast<char const*>(p) - b.p) / g_elem_size, 0});
 		return true;
 	}
-	if(!g_live.count(p)) { violation("assign-dead"); return false; }
+	if(!g_live.count(p)) { if(g_trivdtor) return true; violation("assign-dead"); return false; }
 	return true;
 }
 inline void on_dtor(void const* p) {
 	int id = find_block(p);
-	if(!g_live.count(p)) { violation("dtor-dead"); return; }
+	if(!g_live.count(p)) { if(g_trivdtor && id < 0) return; violation("dtor-dead"); return; }
 	g_live.erase(p);
 	if(id >= 0) { Blk const& b = g_blocks[static_cast<std::size_t>(id)]; g_ev.push_back(Ev{'d', id, (static_cast<char const*>(p) - b.p) / g_elem_size, 0}); }
 }
@@ -193,6 +197,35 @@ struct Elem {
 	friend bool operator!=(Elem const& a, Elem const& b) { return a.v != b.v; }
 };
 static_assert(!std::is_trivially_default_constructible_v<Elem> && !std::is_trivially_destructible_v<Elem>);
+
+// Non-trivial (logged) default / copy construction and assignment, TRIVIAL destructor — the only mixed combination that exists
+// (trivially default constructible implies trivially destructible).  Whether an element was ever constructed is observable:
+// the registry knows exactly the in-block addresses a constructor ran on (they end with their storage, not by a destructor).
+struct Semi {
+	int v;
+	Semi() : v(7) { lg::on_ctor(this); }
+	explicit Semi(int x) : v(x) { lg::on_ctor(this); }
+	Semi(Semi const& o) : v(0) { bool r = lg::on_read(&o); if(lg::on_ctor(this) && r) v = o.v; }
+	auto operator=(Semi const& o) -> Semi& { bool r = lg::on_read(&o); if(lg::on_assign(this) && r) v = o.v; return *this; }
+	friend bool operator==(Semi const& a, Semi const& b) { return a.v == b.v; }
+	friend bool operator!=(Semi const& a, Semi const& b) { return a.v != b.v; }
+};
+static_assert(!std::is_trivially_default_constructible_v<Semi> && std::is_trivially_destructible_v<Semi>);
+
+// Fully instrumented like Elem, but the library is told that destruction may be skipped (force_element_trivial_destruction):
+// a destructor call on an in-block element would be logged — and must not happen.
+struct Forced {
+	int v;
+	Forced() : v(0) { lg::on_ctor(this); }
+	explicit Forced(int x) : v(x) { lg::on_ctor(this); }
+	Forced(Forced const& o) : v(0) { bool r = lg::on_read(&o); if(lg::on_ctor(this) && r) v = o.v; }
+	auto operator=(Forced const& o) -> Forced& { bool r = lg::on_read(&o); if(lg::on_assign(this) && r) v = o.v; return *this; }
+	~Forced() { lg::on_dtor(this); }
+	friend bool operator==(Forced const& a, Forced const& b) { return a.v == b.v; }
+	friend bool operator!=(Forced const& a, Forced const& b) { return a.v != b.v; }
+};
+namespace boost::multi { template<> inline constexpr bool force_element_trivial_destruction<Forced> = true; }
+static_assert(!std::is_trivially_default_constructible_v<Forced> && !std::is_trivially_destructible_v<Forced>);
 
 // =========================================================================================== instrumented allocators
 // CFG bits: 1 = propagate_on_container_copy_assignment, 2 = ..._move_assignment, 4 = ..._swap, 8 = is_always_equal
@@ -258,7 +291,7 @@ template<class X> std::vector<Ex> exts_of(X const& x) {
 }
 static std::string ex_str(std::vector<Ex> const& ex) { std::string s; for(auto const& e : ex) s += " " + std::to_string(e.first) + " " + std::to_string(e.second); return s; }
 
-template<class T> T mkval(int x) { if constexpr(std::is_same_v<T, Elem>) return Elem(x); else return static_cast<T>(x); }
+template<class T> T mkval(int x) { if constexpr(std::is_same_v<T, int>) return x; else return T(x); }
 
 template<class T, int D, class AP>
 struct Runner {
@@ -404,7 +437,8 @@ struct Runner {
 	// runs a whole program (lines after `cfg`), printing the answers
 	void run(std::vector<std::string> const& lines) {
 		lg::g_elem_size = static_cast<long>(sizeof(T));
-		lg::g_observe = std::is_same_v<T, Elem>;
+		lg::g_observe = !std::is_same_v<T, int>;
+		lg::g_trivdtor = std::is_same_v<T, Semi> || std::is_same_v<T, Forced>;
 		for(auto& r : g_res) r.elem_size = static_cast<long>(sizeof(T));
 		bool halted = false;
 		bool poisoned = false;  // some array is in an invalid state (extents/base inconsistent): only destructors run from here on
@@ -479,6 +513,8 @@ static RunFn pick(Cfg const& c) {
 		return nullptr;
 	}
 	if(c.pmr || c.traits != 0) return nullptr;
+	if(c.elem == 'S') { if(c.D == 1) return &run_as<Semi, 1, PolicyL<0>>; if(c.D == 2) return &run_as<Semi, 2, PolicyL<0>>; if(c.D == 3) return &run_as<Semi, 3, PolicyL<0>>; return nullptr; }
+	if(c.elem == 'F') { if(c.D == 2) return &run_as<Forced, 2, PolicyL<0>>; return nullptr; }
 	if(c.D == 1) return &run_as<int, 1, PolicyL<0>>;
 	if(c.D == 2) return &run_as<int, 2, PolicyL<0>>;
 	if(c.D == 3) return &run_as<int, 3, PolicyL<0>>;
@@ -653,6 +689,7 @@ static long count_fallible(std::vector<std::string> const& answers) {
 static Cfg gen_cfg(Rng& rng, std::string const& mode) {
 	Cfg c;
 	if(mode == "trivial") { c.elem = 'I'; c.D = static_cast<int>(rng.range(1, 3)); return c; }
+	if(mode == "semitriv") { if(rng.coin(25)) { c.elem = 'F'; c.D = 2; } else { c.elem = 'S'; c.D = static_cast<int>(rng.range(1, 3)); } return c; }
 	if(mode == "hist" && rng.coin(12)) { c.elem = 'I'; c.D = static_cast<int>(rng.range(1, 3)); return c; }
 	c.elem = 'E';
 	int pk = rng.pick({50, 14, 14, 22});
